@@ -146,7 +146,8 @@ DEP5_HEAD = "Format: https://www.debian.org/doc/packaging-manuals/copyright-form
 class FileStream(Stream):
     name = "file"
     rule = ("generated .reuse/dep5 files (1-4 Files paragraphs, 1-3 patterns each from a plain-glob grammar, multi-line "
-            "copyright, comments) over a fixed tree of 14 files, some with own headers: `reuse lint --json` before and "
+            "copyright, comments; 40 % with a later paragraph repeating the copyright / licence of an earlier one around a different one, plus "
+            "the nested ours / theirs / ours shapes) over a fixed tree of 14 files, some with own headers: `reuse lint --json` before and "
             "after `reuse convert-dep5` compared modulo the source name; order of write/unlink observed; refusal without dep5; "
             "non-trivial = conversion succeeded and at least two files are attributed by different paragraphs")
 
@@ -164,7 +165,19 @@ class FileStream(Stream):
                 gs = rng.sample(self.GLOBS, rng.randint(1, 3))
                 cp = ["%d Holder %d" % (rng.randint(1990, 2024), rng.randint(1, 9)) for _ in range(rng.randint(1, 3))]
                 paras.append({"g": gs, "c": cp, "l": rng.choice(self.LIC), "comment": rng.random() < 0.3})
+            if len(paras) >= 2 and rng.random() < 0.4:
+                # a later paragraph repeats copyright, licence and comment of an earlier one, another paragraph in between:
+                # the order of the paragraphs is part of the meaning (the last match wins)
+                k = rng.randrange(len(paras) - 1)
+                paras.append({"g": rng.sample(self.GLOBS, rng.randint(1, 2)), "c": list(paras[k]["c"]), "l": paras[k]["l"],
+                              "comment": paras[k]["comment"]})
             yield {"paras": paras, "own": rng.sample(self.TREE, 3)}
+        # ours / theirs / ours again, nested: `*`, `src/*`, `src/lib/*`
+        us = {"c": ["2020 Jane Doe"], "l": "MIT", "comment": False}
+        them = {"c": ["2019 Vendor Inc."], "l": "Apache-2.0 OR MIT", "comment": False}
+        for g1, g2, g3 in (("*", "src/*", "src/lib/*"), ("*", "docs/*", "docs/img/*.png"), ("*.json", "data/*.json", "data/sub/2.json")):
+            yield {"paras": [dict(us, g=[g1]), dict(them, g=[g2]), dict(us, g=[g3])], "own": []}
+            yield {"paras": [dict(us, g=[g1]), dict(them, g=[g2]), dict(them, g=["README"]), dict(us, g=[g3, "a.txt"])], "own": ["src/a.c"]}
         yield {"paras": None, "own": []}  # no dep5 file: must refuse
 
     def dep5_text(self, paras):
